@@ -424,6 +424,12 @@ var hostileInts = []string{"0", "7", "007", "0x1F", "0X0a", "00", "1844674407370
 var plainNamePool = []string{"zz", "Col_1", "_x", "a1b2", "T9", "where_", "selectx", "x"}
 
 func genContent(rt *rapid.T, allowNewline bool) string {
+	if rapid.IntRange(0, 39).Draw(rt, "longcontent") == 0 {
+		// lengths around the sizes of small buffers
+		n := rapid.SampledFrom([]int{63, 64, 65, 255, 256, 257, 1023, 1024, 1025, 4096, 5000}).Draw(rt, "contentlen")
+		unit := rapid.SampledFrom([]string{"a", "é", "'", "\\", "a b", "\"", "`"}).Draw(rt, "contentunit")
+		return strings.Repeat(unit, n/len(unit)+1)[:n]
+	}
 	if rapid.IntRange(0, 3).Draw(rt, "useconst") == 0 {
 		return rapid.SampledFrom(hostileConstants).Draw(rt, "const")
 	}
